@@ -57,7 +57,12 @@ pub fn gen_cfg(s: &mut Src, allow_fragment: bool) -> TreeCfg {
 
 pub fn gen_tree_case(s: &mut Src, allow_fragment: bool, max_tokens: usize) -> TreeCase {
     let cfg = gen_cfg(s, allow_fragment);
-    let input = html::gen_html(s, max_tokens);
+    let mut input = html::gen_html(s, max_tokens);
+    if s.chance(30) {
+        // end of input at an arbitrary point
+        let keep = s.below(input.chars().count() + 1);
+        input = input.chars().take(keep).collect();
+    }
     let n = input.chars().count();
     let cuts = chunks::gen_cuts(s, n);
     let chunks = chunks::chunk_str(&input, &cuts);
